@@ -31,9 +31,10 @@ COVFLAGS = ["-DHWV_COV"] if getattr(C, "COV", False) else []     # coverage surv
 SET_CLAUSES = {
     # observed today on accepted documents (three seeds of the quick tier)
     "allowed-nodeset-differs-from-root", "allowed-nodeset-not-in-root", "children-nodeset-contributions-intersect", "children-order",
-    "cpuset-not-disjoint-union-of-children", "cpuset-not-in-complete", "gp-index-duplicate", "local-nodesets-intersect", "machine-level",
+    "cpuset-not-disjoint-union-of-children", "cpuset-not-in-complete", "gp-index-duplicate", "local-nodesets-intersect",
     "memory-children-order", "memory-cpuset-differs-from-parent", "nodeset-not-in-complete", "numa-complete-nodeset",
-    "numa-os-index-duplicate", "pu-complete-cpuset", "pu-os-index-duplicate", "root-not-machine", "total-memory",
+    "numa-os-index-duplicate", "pu-complete-cpuset", "pu-os-index-duplicate", "total-memory",
+    # (root-not-machine / machine-level were here until /repo 64df44a made the importer refuse a non-Machine root)
     # same cause (no cross-object validation of sets), not guarded by any importer check either
     "allowed-cpuset-differs-from-root", "allowed-cpuset-not-in-root", "complete-cpuset-not-in-parent", "complete-nodeset-not-in-parent",
     "cpuset-not-in-parent", "nodeset-not-in-parent", "nodeset-not-inherited-local-children", "local-nodeset-intersects-inherited",
@@ -466,8 +467,19 @@ def make_jobs(run, exe, scratch):
                 attrs[:] = [a for a in attrs if a[0] != an]
                 if av is not None:
                     attrs.insert(0 if an == b"type" else len(attrs), [an, av])
-            add("topo", G.serialize(toks), "root:%s:%s" % (name, "+".join("%s=%s" % (a.decode(), (v or b"-").decode("latin1")) for a, v in var)),
-                backends=(k % 2,) if quick else (0, 1), tflags=0, opts=4 | (16 if k % 3 == 0 else 0))
+            desc = "root:%s:%s" % (name, "+".join("%s=%s" % (a.decode(), (v or b"-").decode("latin1")) for a, v in var))
+            add("topo", G.serialize(toks), desc, backends=(k % 2,) if quick else (0, 1), tflags=0, opts=4 | (16 if k % 3 == 0 else 0))
+            # and with the default type filters (icaches, I/O and Misc filtered out): the root is never filtered
+            add("topo", G.serialize(toks), desc + ":default-filters", backends=((k + 1) % 2,) if quick else (0, 1), tflags=0, opts=(16 if k % 3 == 1 else 0))
+    for si, (name, data) in enumerate(seeds[0:2]):
+        toks0 = G.tokenize(data)
+        ri = next(i for i, t in enumerate(toks0) if t[0] == "tag" and t[2] == b"object")
+        for k, ty in enumerate(G.TYPE_VALUES[:23]):
+            toks = G.tokenize(data)
+            for a in toks[ri][3]:
+                if a[0] == b"type":
+                    a[1] = ty
+            add("topo", G.serialize(toks), "root:%s:type=%s:subtree" % (name, ty.decode()), backends=((k + si) % 2,), tflags=0, opts=(4 if k % 2 else 0) | 8)
     # 6c. documents that fail late, after topology-level infos (and cpukinds, memattrs, distances) were imported:
     #     the reload step then shows whether anything of the failed document survives
     late = [b'<cpukind bogus="1"/>', b'<memattr bogus="1"/>', b'<distances2 nbobjs="0"/>', b'<info bogus="1"/>', b'<support', b'<memattr name="x" flags="1"><bogus/></memattr>']
@@ -539,7 +551,7 @@ def tok_correspondence(run, jobs, scratch):
     for j in jobs:
         if j.kind not in ("topo", "diff") or (j.kind, j.data) in seen:
             continue
-        if len(j.data) <= (2000 if quick else 6000):
+        if len(j.data) <= (2000 if quick else 4000):
             pass
         elif len(j.data) <= 6000 and quick and big < 24:
             big += 1
@@ -549,7 +561,7 @@ def tok_correspondence(run, jobs, scratch):
             continue
         seen.add((j.kind, j.data))
         inputs.append(j)
-    lim = 2200 if quick else 20000
+    lim = 2200 if quick else 12000
     inputs = inputs[:lim]
     # direct differential run of hwloc_decode_from_base64 against the block model decode_mem: every length, every target
     # size around the need, valid and damaged encodings (kind b64: one file of "<targsize> <text>" lines per case)
